@@ -1338,6 +1338,10 @@ clf_case(ParzenWindowClassifier, "rbf-gamma-0.5",
 clf_case(ParzenWindowClassifier, "n_neighbors-2",
          {"n_neighbors": 2, "classes": CLASSES}, predict=PPF,
          lazy_none=("metric_dict",))
+clf_case(ParzenWindowClassifier, "array-class_prior",
+         {"classes": CLASSES, "class_prior": fresh(lambda: np.array([0.5, 1.0]))},
+         predict=PPF, lazy_none=("n_neighbors", "metric_dict", "cost_matrix"),
+         note="constructor parameter given as a caller-owned float64 array")
 clf_case(ParzenWindowClassifier, "cost_matrix-class_prior",
          {"classes": CLASSES, "cost_matrix": COST, "class_prior": 0.5},
          predict=PPF, lazy_none=("metric_dict",))
@@ -1439,6 +1443,13 @@ clf_ma_case(AnnotatorLogisticRegression, "classes-n_annotators-3",
              "annot_prior_full": 2, "annot_prior_diag": 1},
             predict=PPA, lazy_none=("solver_dict", "cost_matrix"),
             data=clf_ma_data_rows_labeled, note=_ALR_SW_NOTE)
+clf_ma_case(AnnotatorLogisticRegression, "array-priors",
+            {"max_iter": 20, "classes": CLASSES, "n_annotators": 3,
+             "annot_prior_full": fresh(lambda: np.array([2.0, 2.0, 1.0])),
+             "annot_prior_diag": fresh(lambda: np.array([1.0, 1.0, 0.0]))},
+            predict=PPA, lazy_none=("solver_dict", "cost_matrix"),
+            data=clf_ma_data_rows_labeled,
+            note="constructor parameters given as caller-owned float64 arrays")
 clf_ma_case(AnnotatorLogisticRegression, "cost_matrix-no-intercept",
             {"max_iter": 20, "classes": CLASSES, "cost_matrix": COST,
              "fit_intercept": False,
